@@ -179,11 +179,11 @@ Section Principals.
                    verifier_verify raw_verify (verifier_of pub_bytes a k) m s).
   Proof. exact (wrap_generated b58enc raw_verify sign_bytes kvalid pub_bytes priv_bytes). Qed.
 
-  (* a verifier accepts exactly: its own algorithm code carrying its own key's
-     signature of exactly this message *)
+  (* a verifier accepts exactly: its own algorithm code, a declared size equal to the size of
+     the raw signature that follows, carrying its own key's signature of exactly this message *)
   Theorem C14_only_own : forall a k m s, kvalid a k = true ->
     (verifier_verify raw_verify (verifier_of pub_bytes a k) m s = Ret true <->
-     sig_code s = sig_alg_code a /\ sig_raw_v s = raw_sig a k m).
+     sig_code s = sig_alg_code a /\ sig_size_v s = N.of_nat (length (sig_raw_v s)) /\ sig_raw_v s = raw_sig a k m).
   Proof. exact (verify_only_own raw_verify kvalid pub_bytes raw_sig sig_unforgeable). Qed.
 
   (* never another key, another algorithm or another message *)
